@@ -59,16 +59,14 @@ def run(ctx) -> None:
     check_rule(ctx)
     check_zero(ctx)
     check_checked(ctx)
-    ctx.rule("C02.readonly", "T8: an operand that is documented as a source (the right-hand model of merge, the other reaction of + / -) is only read: nothing reachable from it is written or adopted", floor=5)
+    ctx.rule("C02.readonly", "T8: an operand that is documented as a source (the right-hand model of merge) is only read: nothing reachable from it is written or adopted", floor=1)
     check_readonly(ctx)
 
 
+# Reaction arithmetic is deliberately not listed: `r1 += r2` takes over the metabolite objects of a model-less `r2` by
+# reference (documented behaviour of add_metabolites), so "only read" is not what the code promises there.
 READ_ONLY_OPERANDS = [
     ("cobra.core.model", "Model.merge", "right"),
-    ("cobra.core.reaction", "Reaction.__iadd__", "other"),
-    ("cobra.core.reaction", "Reaction.__add__", "other"),
-    ("cobra.core.reaction", "Reaction.__isub__", "other"),
-    ("cobra.core.reaction", "Reaction.__sub__", "other"),
 ]
 
 
